@@ -119,7 +119,7 @@ theorem decRun_asciiSeg {X chunk : List Nat} (hx : AsciiSeg X chunk) (T : List N
 theorem asciiSeg_asciiEnc (l : List Nat) (hb : ByteList l) : AsciiSeg (asciiEnc l) l := by
   refine ⟨?_, fun tail e out ecis => dec_asciiEnc l.length l (Nat.le_refl _) hb tail e out ecis⟩
   -- every ASCII codeword is at most 229 or is 235
-  have : ∀ (n : Nat) (l : List Nat), l.length ≤ n → ByteList l → ∀ c ∈ asciiEnc l, c ≠ 254 ∧ c ≠ 129 := by
+  have : ∀ (n : Nat) (l : List Nat), l.length ≤ n → ByteList l → ∀ c ∈ asciiEnc l, c ≠ 254 ∧ c ≠ 129 ∧ c ≠ 232 ∧ c ≠ 236 ∧ c ≠ 237 := by
     intro n
     induction n with
     | zero => intro l h _ c hc; have : l = [] := List.length_eq_zero_iff.mp (by omega); subst this; simp [asciiEnc] at hc
